@@ -54,7 +54,7 @@ struct Gen {
       static const double pool[] = {0.0, -0.0, 1.0, -1.0, 0.1, 1.0 / 3, 2.0 / 3, 1e-7, 123456789.123456789, 0.1 + 0.2,
                                     DBL_MAX, -DBL_MAX, DBL_MIN, -DBL_MIN, 4.9406564584124654e-324, 2.2250738585072009e-308,
                                     1e15, 1e16, 9007199254740993.0, 1e22, 1e23, 1.7976931348623157e308, 5e-324, 1e-320,
-                                    3.141592653589793, 2.718281828459045, 1e300, 1e-300, 32767, 32768, -32768, -32769,
+                                    3.141592653589793, 2.718281828459045, 1e300, 1e-300, INFINITY, -INFINITY, 32767, 32768, -32768, -32769,
                                     2147483647.0, 2147483648.0, -2147483648.0, -2147483649.0, 0.5, 1e21, 123456.7};
       return rng.pick(pool);
     }
@@ -182,6 +182,9 @@ struct Gen {
     Bound b;
     b.kind = (int)rng.below(5);
     double lo = number(), hi = number();
+    // +-DBL_MAX is NLW2's infinity threshold: keep it rare so that it does not mask everything else
+    if (std::fabs(lo) == DBL_MAX && !rng.chance(0.1)) lo = number();
+    if (std::fabs(hi) == DBL_MAX && !rng.chance(0.1)) hi = number();
     if (!o.awkward_numbers && lo > hi) std::swap(lo, hi);
     switch (b.kind) {
       case 0: b.lb = lo; b.ub = hi; break;
@@ -191,7 +194,7 @@ struct Gen {
       case 4: b.lb = b.ub = lo; break;
     }
     if (con && m.nvars > 0 && rng.chance(0.12)) {
-      b.kind = 5; b.cflags = (int)rng.below(4); b.cvar = 1 + (int)rng.below(m.nvars);
+      b.kind = 5; b.cflags = o.feeder_safe ? 1 + (int)rng.below(3) : (int)rng.below(4); b.cvar = 1 + (int)rng.below(m.nvars);
       if (!o.feeder_safe && rng.chance(0.1)) b.cflags = (int)rng.range(-5, 40);
     }
     return b;
@@ -218,7 +221,7 @@ Model gen_model(Rng& rng, const GenOpts& o) {
   Gen g(rng, o, m);
   // ---- sizes
   m.nvars = (int)rng.below((uint64_t)o.max_vars + 1);
-  if (m.nvars == 0 && rng.chance(0.8)) m.nvars = 1 + (int)rng.below(o.max_vars);
+  if (m.nvars == 0 && (o.feeder_safe || rng.chance(0.8))) m.nvars = 1 + (int)rng.below(o.max_vars);
   int ncons = (int)rng.below((uint64_t)o.max_cons + 1);
   int nlcons = rng.chance(0.5) ? (int)rng.below((uint64_t)o.max_lcons + 1) : 0;
   int nobjs = (int)rng.below((uint64_t)o.max_objs + 1);
@@ -240,7 +243,7 @@ Model gen_model(Rng& rng, const GenOpts& o) {
   m.nopts = rng.chance(0.8) ? 3 : (int)rng.below(10);
   for (int i = 0; i < 9; ++i) m.options[i] = (long)rng.below(4);
   m.options[1] = rng.chance(0.15) ? 3 : (long)rng.below(3);
-  if (m.nopts >= 2 && m.options[1] == 3) { m.has_vbtol = true; m.vbtol = rng.chance(0.5) ? 1e-6 : g.number(); }
+  if (m.nopts >= 2 && m.options[1] == 3) { m.has_vbtol = true; m.vbtol = rng.chance(0.8) ? (rng.chance(0.5) ? 1e-6 : 0.001) : g.number(); }
   else if (m.options[1] == 3) m.options[1] = 1;
   m.hflags = (int)rng.below(2);
   // functions
@@ -265,7 +268,7 @@ Model gen_model(Rng& rng, const GenOpts& o) {
     CommonExpr ce;
     ce.lin = g.linear(3);
     ce.e = g.numeric(o.max_depth - 1);
-    ce.position = (int)rng.below(ncons + nobjs + 1);
+    ce.position = (int)rng.below((o.feeder_safe ? ncons + nlcons + nobjs : ncons + nobjs) + 1);
     m.cexprs.push_back(ce);
     g.nrefs = m.nvars + i + 1;     // later expressions may refer to earlier ones
   }
